@@ -232,7 +232,7 @@ pub fn solo_spec(prop: &str) -> Option<SoloSpec> {
         "C10" => SoloSpec {
             prop: "C10",
             profile: Profile { allow_unsafe: true, flag_p: 0.35, rate_one: 0.4, ..d },
-            hist_p: 0.0,
+            hist_p: 0.25,
             trace: Trace::Light,
             spy: false,
             runs_quick: 160_000,
@@ -611,7 +611,48 @@ pub fn soak_scenario(spec: &SoloSpec, seed: u64, k: u64) -> Scenario {
 /// seeded search: candidates are probed cheaply (800 opcodes) and ranked per dimension by what the
 /// reference machine R3 measures; the best ones are then run at scale.
 pub fn deep_count(spec: &SoloSpec, tier: Tier) -> u64 {
-    deep_base_count(spec, tier) + tail_variant_count(spec, tier)
+    deep_base_count(spec, tier) + wide_count(spec, tier) + tail_variant_count(spec, tier)
+}
+
+/// "beyond 2^16" runs: the cheap extremal patterns (memo entries, open MARKs, nesting — their stack
+/// stays shallow or is found at once, so 66 500 opcodes cost a fraction of a second) are pushed past
+/// the 16-bit boundary, where u16 counters, 65 536-entry caps and 2-byte encodings break
+pub fn wide_count(spec: &SoloSpec, tier: Tier) -> u64 {
+    if deep_base_count(spec, tier) == 0 {
+        return 0;
+    }
+    match tier {
+        Tier::Quick => 6,
+        Tier::Thorough => 24,
+    }
+}
+
+fn wide_scenario(spec: &SoloSpec, seed: u64, k: u64) -> Scenario {
+    let pats = deep_patterns(seed);
+    // (objective, protocol group) in turn; rank = k / 6
+    let (obj, low) = [(3usize, true), (3, false), (2, true), (2, false), (0, true), (0, false)][(k % 6) as usize];
+    let rank = (k / 6) as usize;
+    let mut idx: Vec<usize> = (0..pats.len())
+        .filter(|&i| !pats[i].pat.is_empty() && (pats[i].protocol <= 1) == low && pats[i].score[obj] >= 700 && (pats[i].score[1] <= 8 || obj == 2 || obj == 0))
+        .collect();
+    idx.sort_by(|&a, &b| pats[b].score[obj].cmp(&pats[a].score[obj]).then(pats[a].protocol.cmp(&pats[b].protocol)).then(pats[a].pat.cmp(&pats[b].pat)));
+    let Some(&pi) = idx.get(rank).or(idx.first()) else {
+        // no cheap pattern for this dimension: fall back to an ordinary deep run
+        return deep_scenario_base(spec, seed, Tier::Quick, k);
+    };
+    let pat = &pats[pi];
+    let n = 66_500usize;
+    let script: Vec<u8> = (0..n + 64).map(|j| pat.pat[j % pat.pat.len()]).collect();
+    let mut c = Config::default_for(pat.protocol);
+    c.min_opcodes = n;
+    c.max_opcodes = n;
+    let mut sc = Scenario::solo(c, Entropy::Bytes(script));
+    sc.faults.push(desc::Fault {
+        kind: "stuck",
+        at: 0,
+        detail: format!("periodic script {:02x?} pushed past 2^16 for {} (probe scores {:?}), {} opcodes", pat.pat, OBJECTIVES[obj], pat.score, n),
+    });
+    sc
 }
 
 /// "extreme state x every next opcode": for the best patterns of each dimension the periodic phase
@@ -628,15 +669,15 @@ pub fn tail_variant_count(spec: &SoloSpec, tier: Tier) -> u64 {
 
 fn deep_base_count(spec: &SoloSpec, tier: Tier) -> u64 {
     match (spec.prop, tier) {
-        ("C09", Tier::Quick) => 20,
+        ("C09", Tier::Quick) => 24,
         ("C09", Tier::Thorough) => 400,
-        ("C08", Tier::Quick) => 12,
+        ("C08", Tier::Quick) => 18,
         ("C08", Tier::Thorough) => 60,
-        ("C14", Tier::Quick) => 10,
+        ("C14", Tier::Quick) => 12,
         ("C14", Tier::Thorough) => 40,
         ("C15", _) | ("C16", _) => 0,
-        (_, Tier::Quick) => 12,
-        (_, Tier::Thorough) => 90,
+        (_, Tier::Quick) => 18,
+        (_, Tier::Thorough) => 108,
     }
 }
 
@@ -645,12 +686,12 @@ pub struct Pattern {
     pub protocol: u8,
     pub pat: Vec<u8>,
     /// measured in the probe: nesting depth, max stack depth, max open MARKs, max memo size, output bytes
-    pub score: [u32; 5],
+    pub score: [u32; 6],
 }
 
-pub const OBJECTIVES: [&str; 5] = ["nesting-depth", "stack-depth", "open-marks", "memo-size", "output-bytes"];
+pub const OBJECTIVES: [&str; 6] = ["nesting-depth", "stack-depth", "open-marks", "memo-size", "output-bytes", "framed-output-bytes"];
 
-fn probe_pattern(p: u8, pat: &[u8]) -> [u32; 5] {
+fn probe_pattern(p: u8, pat: &[u8]) -> [u32; 6] {
     tick();
     let probe = 800usize;
     let mut c = Config::default_for(p);
@@ -659,10 +700,10 @@ fn probe_pattern(p: u8, pat: &[u8]) -> [u32; 5] {
     let script: Vec<u8> = if pat.is_empty() { vec![] } else { (0..probe + 64).map(|j| pat[j % pat.len()]).collect() };
     let sc = Scenario::solo(c, Entropy::Bytes(script));
     let recs = exec::run_scenario(&sc, Trace::Off, false);
-    let Some(b) = recs.first().and_then(|r| r.outcome.bytes()) else { return [0; 5] };
+    let Some(b) = recs.first().and_then(|r| r.outcome.bytes()) else { return [0; 6] };
     let (ops, err) = crate::lexer::lex(b);
     if err.is_some() {
-        return [0, 0, 0, 0, b.len() as u32];
+        return [0, 0, 0, 0, b.len() as u32, 0];
     }
     // one pass of the reference machine, tracking the extremes
     let mut m = crate::machine::Machine::new();
@@ -679,7 +720,8 @@ fn probe_pattern(p: u8, pat: &[u8]) -> [u32; 5] {
             max_marks = max_marks.max(m.stack.iter().filter(|s| s.is_mark()).count() as u32);
         }
     }
-    [m.max_depth, max_stack, max_marks, max_memo, b.len() as u32]
+    let framed = ops.iter().take(2).any(|o| o.name() == "FRAME");
+    [m.max_depth, max_stack, max_marks, max_memo, b.len() as u32, if framed { b.len() as u32 } else { 0 }]
 }
 
 /// when PFSIM_PROBE_PROGRESS is set (the isolated probing child of the C09 check) every probe is
@@ -726,8 +768,8 @@ fn deep_patterns(seed: u64) -> &'static Vec<Pattern> {
                                 .iter()
                                 .filter_map(|e| {
                                     let sc = e[2].as_array()?;
-                                    let mut score = [0u32; 5];
-                                    for (i, x) in sc.iter().enumerate().take(5) {
+                                    let mut score = [0u32; 6];
+                                    for (i, x) in sc.iter().enumerate().take(6) {
                                         score[i] = x.as_u64()? as u32;
                                     }
                                     Some(Pattern { protocol: e[0].as_u64()? as u8, pat: desc::unhex(e[1].as_str()?).ok()?, score })
@@ -782,7 +824,7 @@ fn deep_patterns(seed: u64) -> &'static Vec<Pattern> {
 }
 
 /// the ordered list of (pattern index, objective) the deep runs go through: rank by rank, objective
-/// by objective, alternately for the old protocols (0-1) and the new ones (2-5)
+/// by objective, in turn for the protocol groups 0-1, 2-3 and 4-5
 fn deep_schedule(seed: u64) -> &'static Vec<(usize, usize)> {
     use std::sync::OnceLock;
     static CACHE: OnceLock<Vec<(usize, usize)>> = OnceLock::new();
@@ -790,9 +832,9 @@ fn deep_schedule(seed: u64) -> &'static Vec<(usize, usize)> {
         let pats = deep_patterns(seed);
         let mut order: Vec<(usize, usize)> = vec![];
         let mut used = std::collections::HashSet::new();
-        let ranked: Vec<Vec<Vec<usize>>> = (0..5)
+        let ranked: Vec<Vec<Vec<usize>>> = (0..6)
             .map(|obj| {
-                [0u8..=1, 2u8..=5]
+                [0u8..=1, 2u8..=3, 4u8..=5]
                     .iter()
                     .map(|grp| {
                         let mut idx: Vec<usize> = (0..pats.len()).filter(|&i| grp.contains(&pats[i].protocol)).collect();
@@ -803,10 +845,10 @@ fn deep_schedule(seed: u64) -> &'static Vec<(usize, usize)> {
             })
             .collect();
         for rank in 0..pats.len() {
-            for obj in 0..5 {
-                for g in 0..2 {
+            for obj in 0..6 {
+                for g in 0..3 {
                     if let Some(&i) = ranked[obj][g].get(rank) {
-                        if used.insert(i) {
+                        if pats[i].score[obj] > 0 && used.insert(i) {
                             order.push((i, obj));
                         }
                     }
@@ -894,10 +936,19 @@ fn tail_variant_scenario(spec: &SoloSpec, seed: u64, tier: Tier, k: u64) -> Scen
 }
 
 pub fn deep_scenario(spec: &SoloSpec, seed: u64, tier: Tier, k: u64) -> Scenario {
-    use rand::Rng;
-    if k >= deep_base_count(spec, tier) {
-        return tail_variant_scenario(spec, seed, tier, k - deep_base_count(spec, tier));
+    let base = deep_base_count(spec, tier);
+    let wide = wide_count(spec, tier);
+    if k >= base + wide {
+        return tail_variant_scenario(spec, seed, tier, k - base - wide);
     }
+    if k >= base {
+        return wide_scenario(spec, seed, k - base);
+    }
+    deep_scenario_base(spec, seed, tier, k)
+}
+
+fn deep_scenario_base(spec: &SoloSpec, seed: u64, tier: Tier, k: u64) -> Scenario {
+    use rand::Rng;
     let pats = deep_patterns(seed);
     let order = deep_schedule(seed);
     let (pi, obj) = order[(k as usize) % order.len()];
